@@ -355,8 +355,11 @@ def _e1_shards(tier):
             base = {"calls": 1, "F": 2, "flaky_first": ff, "fault_exc": fe}
             out += [dict(base, prefix=p) for p in enumerate_prefixes(body_E1, "X", {}, base, 1)]
         return out
-    for ff, fe in ((1, 0), (0, 0), (1, 1), (0, 2)):
-        base = {"calls": 2, "F": 3 if (ff and not fe) else 2, "flaky_first": ff, "fault_exc": fe}
+    for ff, fe in ((1, 0), (0, 1)):
+        base = {"calls": 2, "F": 2, "flaky_first": ff, "fault_exc": fe}
+        out += [dict(base, prefix=p) for p in enumerate_prefixes(body_E1, "X", {}, base, 2)]
+    for ff, fe in ((1, 0), (0, 0), (1, 1), (1, 2), (0, 3)):
+        base = {"calls": 1, "F": 3, "flaky_first": ff, "fault_exc": fe}
         out += [dict(base, prefix=p) for p in enumerate_prefixes(body_E1, "X", {}, base, 2)]
     return out
 
@@ -373,7 +376,7 @@ OBLIGATIONS = [
         twin=[{"calls": 1, "F": 2, "flaky_first": 1, "twin_label": "two-faults"}],
         timeout={"quick": 100, "thorough": 1500},
         path_timeout=60,
-        bounds={"quick": "one entry-point kind (each makes 1-4 logging calls) x 12 values x <= 2 injected faults at solver-chosen fault points, flaky destination before/after the real FileDestination", "thorough": "two kinds (second nested inside the first's action where it has one) x 12 values x <= 3 faults"},
+        bounds={"quick": "one entry-point kind (each makes 1-4 logging calls) x 12 values x <= 2 injected faults at solver-chosen fault points, flaky destination before/after the real FileDestination", "thorough": "two kinds (second nested inside the first's action where it has one) x 12 values x <= 2 faults for two fault-exception/ordering configurations; one kind x <= 3 faults for all five"},
     ),
     Ob("L1", L1, body_L1, "S", desc="safeunicode/saferepr/_safe_unicode_dictionary return str and never raise", functions=["safeunicode", "saferepr", "_safe_unicode_dictionary"], shards={"quick": [{"kind": "str"}, {"kind": "raising-dunders"}]}, twin=[{"kind": "str"}], timeout={"quick": 100, "thorough": 300}, bounds={"quick": "safeunicode on any str of length <= 4; all three helpers on objects whose __str__/__repr__ raise exceptions carrying any int"}),
 ]
